@@ -50,7 +50,8 @@ BOUNDS = {
                                     "values jointly with the others",
               "data bytes": "all byte values; section lengths " + str(QUICK_LENS),
               "shapes": "0-3 sections, 0-5 symbols (global/local, defined/undefined/absolute), 0-3 relocations, 0-2 images, "
-                        "entry set/unset, debug info none/rich, archives of 0-3 objects, 5 architectures"},
+                        "entry set/unset, debug info none/empty/two different rich type tables/recursive, archives of 0-3 objects (incl. members with "
+                        "different debug type tables), sequences of 2-3 different objects loaded one after the other, 5 architectures"},
     "thorough": {"numeric fields": "|v| < 16**32 (= 2**128), both signs",
                  "field combinations": "per shape 1-3 diagonals (64 classes per field) + for four related field pairs (section address/alignment, "
                                        "symbol value/relocation offset, relocation offset/addend, relocation offset/image address) both "
@@ -71,6 +72,9 @@ ASSUMPTIONS = [
     "hex(v) = sign, '0x', minimal lowercase hex digits; int(s,16) = positional value of hex digits (either case), ValueError "
     "otherwise; binascii.hexlify/unhexlify = two lowercase hex digits per byte and back (CPython stdlib trusted; each is "
     "cross-checked on one model per path by the shim-free re-run)",
+    "every run (symbolic and concrete re-run alike) starts from the import-time state of the six anchored modules (module-level "
+    "instances/containers, class-level containers and functools caches are put back), i.e. models the first loads of a fresh process; "
+    "state carried from one load to the next is observed inside one run (archive members, load sequences)",
     "field inventory of an object file taken from the property text (ref/objsnap.py); SourceLocation.source (a lazily loaded "
     "copy of the source text) is a cache, not debug information",
 ]
@@ -282,6 +286,68 @@ class json_c14:
         return _json.load(fp, **kw)
 
 
+# ---------------------------------------------------------------------------------------------
+# Process-state hygiene.  Every run() -- the symbolic one and the shim-free concrete re-run alike -- starts
+# from the import-time state of the modules under test (module-level instances and containers, class-level
+# containers, functools caches), i.e. it behaves like the first save/load of a fresh process.  State that
+# ppci code carries from one load to the next is therefore observed INSIDE one run (archive members,
+# the load-sequence harness), identically by the symbolic and by the concrete execution, instead of
+# leaking proxies of an earlier path into a later concrete run.
+import copy as _copy
+import types as _types
+_PRISTINE = {}      # module name -> list of (kind, holder, name/None, object, saved copy)
+
+
+def _is_container(v):
+    return type(v) in (dict, list, set, bytearray)
+
+
+def _snapshot_module(mod):
+    rec = []
+    for name, val in list(vars(mod).items()):
+        if name.startswith("__") or _real_isinstance(val, (_types.ModuleType, _types.FunctionType, type)):
+            if _real_isinstance(val, type) and getattr(val, "__module__", None) == mod.__name__:
+                for an, av in list(vars(val).items()):
+                    if _is_container(av):
+                        try:
+                            rec.append(("container", av, _copy.deepcopy(av)))
+                        except Exception:
+                            pass
+            elif hasattr(val, "cache_clear") and getattr(val, "__module__", None) == mod.__name__:
+                rec.append(("cache", val, None))
+            continue
+        if hasattr(val, "cache_clear") and getattr(val, "__module__", None) == mod.__name__:
+            rec.append(("cache", val, None))
+            continue
+        try:
+            if _is_container(val):
+                rec.append(("container", val, _copy.deepcopy(val)))
+            elif (type(val).__module__ or "").startswith("ppci") and hasattr(val, "__dict__") \
+                    and not _real_isinstance(val, type):
+                rec.append(("instance", val, _copy.deepcopy(vars(val))))
+        except Exception:
+            pass
+    return rec
+
+
+def _restore_modules():
+    for rec in _PRISTINE.values():
+        for kind, obj, saved in rec:
+            if kind == "cache":
+                obj.cache_clear()
+            elif kind == "instance":
+                vars(obj).clear()
+                vars(obj).update(_copy.deepcopy(saved))
+            elif type(obj) is dict:
+                obj.clear()
+                obj.update(_copy.deepcopy(saved))
+            elif type(obj) is set:
+                obj.clear()
+                obj.update(_copy.deepcopy(saved))
+            else:
+                obj[:] = _copy.deepcopy(saved)
+
+
 SHIM_MODULES = ("ppci.binutils.objectfile", "ppci.binutils.archive", "ppci.binutils.debuginfo",
                 "ppci.utils.binary_txt", "ppci.utils.chunk", "ppci.common")
 EXTRA = {"hex": hex_c14, "int": int_c14, "binascii": binascii_c14, "json": json_c14}
@@ -372,6 +438,7 @@ SHAPES = {
                   symbols=[_sym("m_f", "global", "code", True, "func"), _sym(".LDBG_1", "local", "code")],
                   relocs=[], entry=False, debug="rich"),
     "debug-empty": dict(arch="avr", sections=[["code", 1]], debug="empty"),
+    "debug2": dict(arch="arm", sections=[["data", 3]], symbols=[_sym("tab", "global", "data")], relocs=[], entry=False, debug="alt"),
     "symid": dict(arch="arm", sections=[["code", 2]],
                   symbols=[_sym("a", "global", "code"), _sym("b", "local", None, False)], relocs=[["absaddr32", "code"]],
                   entry=True, symids=True),
@@ -383,6 +450,10 @@ ARCHIVES = {
     "ar1": ["typical"],
     "ar3": ["images", "empty", "debug"],
     "ar2same": ["sec1", "sec1"],
+    # members whose debug type tables differ id by id: state carried from one load to the next shows here
+    "ar-dbg2": ["debug", "debug2"],
+    "ar-dbg3": ["debug2", "debug-ptrfirst", "debug"],
+    "typical-images": ["typical", "images"],
 }
 
 
@@ -449,6 +520,10 @@ def declare(shape, fm, p=""):
         v[f"img{i}.address"] = fm.hexint(f"{p}img{i}.address")
     if shape.get("entry"):
         v["entry"] = fm.uint(f"{p}entry")
+    if shape.get("debug") == "alt":
+        for k in ("row", "col", "length", "long.size", "long.encoding", "arr.size", "arr2.size", "var.symbol_id", "fp.size"):
+            v["dbg." + k] = fm.uint(f"{p}dbg.{k}")
+        v["dbg.fp.offset"] = fm.sint(f"{p}dbg.fp.offset")
     if shape.get("debug") == "rich":
         for k in ("row", "col", "length", "row2", "col2", "length2", "int.size", "int.encoding", "byte.size", "byte.encoding",
                   "f0.offset", "f1.offset", "f2.offset", "arr.size", "loc.symbol_id", "var.symbol_id", "begin.symbol_id",
@@ -474,6 +549,22 @@ def build_debug(kind, v):
         di.add(st)
         return di
     g = lambda k: v["dbg." + k]
+    if kind == "alt":
+        # a type table that differs from "rich" id by id: (long, *long, long[n], (*long)[m]) vs (struct, int, array, ...)
+        t_long = D.DebugBaseType("long", g("long.size"), g("long.encoding"))
+        t_pl = D.DebugPointerType(t_long)
+        t_al = D.DebugArrayType(t_long, g("arr.size"))
+        t_apl = D.DebugArrayType(t_pl, g("arr2.size"))
+        for t in (t_long, t_pl, t_al, t_apl):
+            di.add(t)
+        loc = SourceLocation("other.c", g("row"), g("col"), g("length"))
+        di.add(D.DebugVariable("tab", t_apl, loc, address=D.DebugAddress(g("var.symbol_id"))))
+        di.add(D.DebugVariable("p", t_pl, loc))
+        di.add(D.DebugFunction("h", loc, t_pl, [D.DebugParameter("n", t_long), D.DebugParameter("v", t_al)],
+                               begin=D.UnknownAddress(), end=D.UnknownAddress(),
+                               variables=[D.DebugVariable("i", t_long, loc,
+                                                          address=D.FpOffsetAddress(StackLocation(g("fp.offset"), g("fp.size"))))]))
+        return di
     t_int = D.DebugBaseType("int", g("int.size"), g("int.encoding"))
     t_byte = D.DebugBaseType("byte", g("byte.size"), g("byte.encoding"))
     t_struct = D.DebugStructType()
@@ -553,6 +644,17 @@ class _Base(Harness):
     def shim_extra(self):
         return dict(EXTRA)
 
+    def modules(self):
+        import importlib
+        mods = []
+        for m in self.shim_modules:
+            fresh = m not in _PRISTINE and m in SHIM_MODULES     # the anchored modules of C14 only
+            mod = importlib.import_module(m)
+            if fresh:       # taken before any run of this process touches the module (shims not yet injected)
+                _PRISTINE[m] = _snapshot_module(mod)
+            mods.append(mod)
+        return mods
+
     def _setup(self, D):
         self.D = D
         self.W = 4 * D + 32
@@ -576,6 +678,7 @@ class ObjectHarness(_Base):
 
     def run(self, v):
         from ppci.binutils.objectfile import ObjectFile
+        _restore_modules()
         obj = build(self.shape, v)
         before = snap_object(obj)
         f = MemFile()
@@ -597,15 +700,16 @@ class ObjectHarness(_Base):
 class ArchiveHarness(_Base):
     """several objects: Archive.save -> text -> Archive.load"""
 
-    def __init__(self, archive, D=16, ks=(), free=(), cls_range=None):
+    def __init__(self, archive, D=16, ks=(), free=(), cls_range=None, mode="archive"):
         self.archive = archive
+        self.mode = mode            # "archive": one Archive.save/load; "sequence": every object saved, then loaded one after the other
         self.cls_range = cls_range
         self.shapes = [SHAPES[s] for s in ARCHIVES[archive]]
         self.ks = list(ks)
         self.free = list(free)
         self._setup(D)
-        self.name = f"archive.roundtrip[{archive};D={D};k={_kname(self.ks)}]"
-        self.params = dict(archive=archive, D=D, ks=self.ks, free=self.free, cls_range=cls_range)
+        self.name = f"{mode}.roundtrip[{archive};D={D};k={_kname(self.ks)}]"
+        self.params = dict(archive=archive, D=D, ks=self.ks, free=self.free, cls_range=cls_range, mode=mode)
 
     def inputs(self, mk):
         fm = FieldMaker(mk, self.D, self.ks, self.free, self.cls_range)
@@ -613,14 +717,25 @@ class ArchiveHarness(_Base):
 
     def run(self, v):
         from ppci.binutils.archive import Archive, archive, get_archive
+        from ppci.binutils.objectfile import ObjectFile, get_object
+        _restore_modules()
         objs = [build(s, v[f"o{i}"]) for i, s in enumerate(self.shapes)]
         before = [snap_object(o) for o in objs]
-        ar = archive(objs)
-        f = MemFile()
-        ar.save(f)
-        f.seek(0)
-        ar2 = get_archive(Archive.load(f))
-        objs2 = list(ar2)
+        if self.mode == "sequence":
+            files = []
+            for o in objs:
+                f = MemFile()
+                o.save(f)
+                f.seek(0)
+                files.append(f)
+            objs2 = [get_object(f) for f in files]      # get_object -> ObjectFile.load
+        else:
+            ar = archive(objs)
+            f = MemFile()
+            ar.save(f)
+            f.seek(0)
+            ar2 = get_archive(Archive.load(f))
+            objs2 = list(ar2)
         return dict(orig=before, loaded=[snap_object(o) for o in objs2],
                     eq=[bool(a == b) for a, b in zip(objs2, objs)])
 
@@ -649,6 +764,7 @@ class NumTextHarness(_Base):
     def run(self, i):
         from ppci.binutils import objectfile
         from ppci.common import make_num
+        _restore_modules()
         # the serializer's rendering of a numeric field (a one-symbol object would do the same)
         txt = objectfile.serialize(objectfile.RelocationEntry("t", 0, "s", i["v"], 0))["offset"]
         return make_num(_json_model(txt) if _has_sym(txt) else _json.loads(_json.dumps(txt)))
@@ -672,6 +788,7 @@ class DataTextHarness(_Base):
 
     def run(self, i):
         from ppci.utils.binary_txt import bin2asc, asc2bin
+        _restore_modules()
         lst = i["data"]
         sym = any(type(x) is SymInt for x in lst)
         if self.mutable:
@@ -775,6 +892,7 @@ class LinkHarness(_Base):
     def run(self, v):
         from ppci.binutils.objectfile import ObjectFile
         from ppci.binutils.archive import Archive
+        _restore_modules()
         o1, o2 = self._objects(v)
 
         def rt(o):
@@ -866,10 +984,18 @@ def jobs(tier, seed):
                 kw["cls_range"] = [c, c]
             js.append(("mk_obj", kw))
     for aid in ARCHIVES:
-        if aid == "ar0":
+        if aid in ("ar0", "typical-images"):
             continue
-        js.append(("mk_ar", dict(archive=aid, D=D, ks=[0], free=[])))
+        kw = dict(archive=aid, D=D, ks=[0], free=[])
+        if aid.startswith("ar-dbg") and tier == "quick":
+            c = rnd.randrange(2 * D)
+            kw["cls_range"] = [c, c]
+        js.append(("mk_ar", kw))
     js.append(("mk_ar", dict(archive="ar0", D=D, ks=[0], free=[], cls_range=[0, 0])))
+    for aid, mode in (("ar-dbg2", "sequence"), ("ar-dbg3", "sequence"), ("typical-images", "sequence")):
+        c = rnd.randrange(2 * D)
+        js.append(("mk_ar", dict(archive=aid, D=D, ks=[0, 5, 11, 2], free=[], mode=mode,
+                                 cls_range=[c, c] if tier == "quick" else None)))
     js.append(("mk_ar", dict(archive="ar3", D=D, ks=[0] + [rnd.randrange(2 * D) for _ in range(20)], free=[])))
     for mode in ("objects", "library"):
         for variant in ((0, 1) if tier == "quick" else (0, 1, 2)):
